@@ -86,7 +86,9 @@ def compare_case(prop, case_line, il, ml):
     for path, a, b in core.tree_diffs(it, mt):
         d = prop.describe(case_tree, path, it, mt)
         d['path'] = list(path)
-        fails.append({'kind': 'correspondence', 'detail': d})
+        # the implementation panics where the model computes a value: whatever the property says about that value fails
+        panics = 'PANIC' in str(d.get('impl')) and 'PANIC' not in str(d.get('model'))
+        fails.append({'kind': 'panic' if panics else 'correspondence', 'detail': d})
     return fails, it, mt
 
 
@@ -202,20 +204,29 @@ def run_check(prop, tier, seed):
         for k, vs in sorted(hist.items(), key=lambda kv: -len(kv[1])):
             print('TRIAGE %6d %s   e.g. %s | %s' % (len(vs), k, vs[0].get('case', '')[:150], json.dumps(vs[0].get('detail'))[:300]))
 
-    # 3. decide
+    # 3. decide. A failing input is a case on which the PROPERTY fails on the implementation's own observations: the
+    # property oracle rejects them, or the implementation panics / crashes / diverges where the model does not. A case on
+    # which model and implementation merely differ means the correspondence no longer checks (the property is no longer
+    # shown to hold): reported too, with the minimal disagreeing case in the replay, as no-failing-input-found.
     status = 0
     replay_paths = []
-    failing_input_found = bool(violations)
+    PROPERTY_KINDS = ('oracle', 'panic', 'diverged', 'crashed', 'crash')
+    failing = [v for v in violations if v.get('kind') in PROPERTY_KINDS or (v.get('kind') == 'missing-output' and v.get('what') == 'impl')]
     if violations:
-        first = violations[0]
-        small = shrink_violation(prop, first) if first.get('kind') in ('correspondence', 'oracle') else first
+        first = failing[0] if failing else violations[0]
+        small = shrink_violation(prop, first) if first.get('kind') in ('correspondence', 'oracle', 'panic') else first
+        if failing and small.get('kind') != first.get('kind'):
+            small = first          # keep a replay on which the property itself fails
         path = core.write_replay(prop.id, seed, 0, {
             'case': small.get('case'), 'original_case': first.get('case'), 'kind': small.get('kind'),
             'detail': small.get('detail'), 'total_violating_records': len(violations),
-            'others': [{'case': v.get('case', '')[:300], 'detail': v.get('detail')} for v in violations[1:6]],
+            'failing_input_found': bool(failing),
+            'broken': None if failing else 'correspondence between coq/theories (model run by ocaml/driver, mode %s) and /repo (harness/%s): observation group %s'
+                      % (prop.driver_mode, prop.harness, (small.get('detail') or {}).get('group')),
+            'others': [{'case': v.get('case', '')[:300], 'detail': v.get('detail')} for v in (failing or violations)[1:6]],
             'driver_mode': prop.driver_mode, 'harness': prop.harness})
         replay_paths.append(path)
-        print('VIOLATION property=%s replay=%s' % (prop.id, path))
+        print('VIOLATION property=%s replay=%s%s' % (prop.id, path, '' if failing else ' no-failing-input-found'))
         status = 1
     if not proof.get('ok') or not ok_h or not ok_d:
         # the property is no longer shown to hold
@@ -255,9 +266,14 @@ def run_check(prop, tier, seed):
         'replays': replay_paths,
     }
     core.write_evidence(prop.id, tier, seed, coverage, wall, len(violations), prop.assumptions)
-    print('%s %s: obligations %d/%d, %d cases (%d non-trivial distinct), %d disagreeing, %d violations, %d known findings, %.1fs'
+    kinds = {}
+    for v in violations:
+        kinds[v.get('kind', '?')] = kinds.get(v.get('kind', '?'), 0) + 1
+    print('%s %s: obligations %d/%d, %d cases (%d non-trivial distinct), %d disagreeing, %d violations%s, %d known findings, %.1fs'
           % (prop.id, tier, coverage['discharged'], coverage['obligations'], evaluations,
-             len(nontrivial_keys), disagreements, len(violations), len(known_met), wall))
+             len(nontrivial_keys), disagreements, len(violations),
+             (' (' + ', '.join('%d %s' % (n, k) for k, n in sorted(kinds.items())) + ')') if kinds else '',
+             len(known_met), wall))
     return status
 
 
@@ -306,7 +322,7 @@ def shrink_violation(prop, viol, rounds=12):
                                        supervise=min(sup, 1.5) if sup else None)
         nxt = None
         for c, il, ml in zip(cands, impl, model):
-            fs = evaluate_single(prop, c, il, ml)
+            fs = [f for f in evaluate_single(prop, c, il, ml) if f.get('kind') == viol.get('kind')]
             if fs:
                 nxt = fs[0]
                 break
